@@ -182,6 +182,24 @@ func (i *InStream) Close() { i.C.Close() }
 type OutStream struct {
 	C  *hk.Conn
 	mu sync.Mutex
+	// Fixed: the request declared a Content-Length; data is sent as is and
+	// the body cannot be ended early.
+	Fixed bool
+}
+
+// OpenOutLen connects to /o/{id} with a POST that declares a body of n bytes
+// (what `curl -T file` or -d @file send); the harness then sends as much of
+// it as it likes.
+func OpenOutLen(addr, target string, n int64) (*OutStream, error) {
+	c, err := hk.Dial(addr, "")
+	if err != nil {
+		return nil, err
+	}
+	if _, err := fmt.Fprintf(c, "POST %s HTTP/1.1\r\nHost: fake.shell\r\nContent-Length: %d\r\n\r\n", target, n); err != nil {
+		c.Close()
+		return nil, err
+	}
+	return &OutStream{C: c, Fixed: true}, nil
 }
 
 // OpenOut connects to /o/{id} with a chunked POST body.
@@ -202,6 +220,10 @@ func (o *OutStream) Send(data string) error {
 	o.mu.Lock()
 	defer o.mu.Unlock()
 	o.C.SetWriteDeadline(time.Now().Add(Bound))
+	if o.Fixed {
+		_, err := io.WriteString(o.C, data)
+		return err
+	}
 	_, err := fmt.Fprintf(o.C, "%x\r\n%s\r\n", len(data), data)
 	return err
 }
@@ -210,6 +232,9 @@ func (o *OutStream) Send(data string) error {
 func (o *OutStream) End() error {
 	o.mu.Lock()
 	defer o.mu.Unlock()
+	if o.Fixed {
+		return fmt.Errorf("a body with a declared length cannot be ended early")
+	}
 	_, err := io.WriteString(o.C, "0\r\n\r\n")
 	return err
 }
